@@ -73,6 +73,15 @@ def optFloat : Option Float → Json
   | some v => fbits v
   | none => Json.null
 
+/-- nests `[[mu bits, [alternatives]]]` -/
+def parseNests (j : Json) : Except String (List (Nest Float)) := do
+  let a ← asArr j
+  a.toList.mapM fun e => do
+    let p ← asArr e
+    match p.toList with
+    | [m, l] => pure ⟨(← asFloat m), (← intList l)⟩
+    | _ => throw "bad-op"
+
 def handle (j : Json) : Except String Json := do
   let op ← getStr j "op"
   match op with
@@ -153,6 +162,35 @@ def handle (j : Json) : Except String Json := do
       let tbl := ids.zip (us.map fun o => o.getD 0.0)
       let U : Int → Float := fun a => (tbl.lookup a).getD (0.0 / 0.0)
       pure (Json.mkObj [("ll", fbits (fullLL U ids chosen)), ("U", jFloats (tbl.map (·.2)))])
+  | "nestedll" =>
+    let row ← parseNamed (← j.getObjVal? "row")
+    let attrs ← strList (← j.getObjVal? "attributes")
+    let u ← parseFormula (← j.getObjVal? "utility")
+    let J ← getNat j "J"
+    let J2 : Option Nat ←
+      match j.getObjVal? "J2" with
+      | .ok Json.null => pure none
+      | .ok v => do pure (some (← asNat v))
+      | .error _ => throw "bad-op"
+    let idCol ← getStr j "id_col"
+    let nests ← parseNests (← j.getObjVal? "nests")
+    pure (Json.mkObj [("ll", optFloat (nestedSampledLL attrs u idCol J J2 nests row))])
+  | "fullnestedll" =>
+    let ind ← parseNamed (← j.getObjVal? "ind")
+    let altCols ← strList (← j.getObjVal? "alt_cols")
+    let ids ← intList (← j.getObjVal? "ids")
+    let altRows ← floatMat (← j.getObjVal? "alt_rows")
+    let comb ← parseCombined (← j.getObjVal? "combined")
+    let u ← parseFormula (← j.getObjVal? "utility")
+    let chosen ← getInt j "chosen"
+    let nests ← parseNests (← j.getObjVal? "nests")
+    let us := altRows.map fun r => altUtility ind altCols r comb u
+    if us.any Option.isNone || ids.length != altRows.length then
+      pure (Json.mkObj [("ll", Json.null)])
+    else
+      let tbl := ids.zip (us.map fun o => o.getD 0.0)
+      let U : Int → Float := fun a => (tbl.lookup a).getD (0.0 / 0.0)
+      pure (Json.mkObj [("ll", fbits (fullNestedLL U nests ids chosen))])
   | _ => throw "bad-op"
 
 def main : IO Unit := Drv.run handle
